@@ -322,6 +322,11 @@ fn handle(line: &str) -> String {
                         b = b.with_file(&src, rpm::FileOptions::new("/d/f0"))?;
                         b = b.with_file(&src, rpm::FileOptions::new("/e/f1").user("u").group("g"))?;
                     }
+                    "modes" => {
+                        b = b.with_file(&src, rpm::FileOptions::new("/d/a").mode(0o104755))?;
+                        b = b.with_file(&src, rpm::FileOptions::new("/d/b").mode(0o102755))?;
+                        b = b.with_file(&src, rpm::FileOptions::new("/d/c").mode(0o101777))?;
+                    }
                     "utf8name" => {
                         b = b.with_file(&src, rpm::FileOptions::new("/d/gr\u{fc}\u{df}e"))?;
                         b = b.with_file(&src, rpm::FileOptions::new("/d/z"))?;
@@ -875,6 +880,25 @@ fn handle(line: &str) -> String {
                 _ => Ok(()),
             };
             if r.is_err() { "panic".to_string() } else { "ok".to_string() }
+        }
+        "scriptlet_getters" => {
+            // <hex metadata>: every scriptlet getter that answers, as NAME=text:flags:prog,prog
+            let b = unhex_bytes(p[1]);
+            match rpm::PackageMetadata::parse(&mut &b[..]) {
+                Err(_) => "parse-err".to_string(),
+                Ok(m) => {
+                    let got = [("PREIN", m.get_pre_install_script()), ("POSTIN", m.get_post_install_script()), ("PREUN", m.get_pre_uninstall_script()), ("POSTUN", m.get_post_uninstall_script()),
+                               ("PRETRANS", m.get_pre_trans_script()), ("POSTTRANS", m.get_post_trans_script()), ("PREUNTRANS", m.get_pre_untrans_script()), ("POSTUNTRANS", m.get_post_untrans_script())];
+                    let mut out = Vec::new();
+                    for (n, g) in got.iter() {
+                        if let Ok(s) = g {
+                            out.push(format!("{}={}:{:x}:{}", n, hex(&s.script), s.flags.map(|f| f.bits()).unwrap_or(0),
+                                s.program.as_ref().map(|v| v.iter().map(|x| hex(x)).collect::<Vec<_>>().join(",")).unwrap_or_else(|| "-".to_string())));
+                        }
+                    }
+                    format!("ok {}", out.join(" "))
+                }
+            }
         }
         "file_entries" => {
             let b = unhex_bytes(p[1]);
